@@ -3,7 +3,8 @@
 # usage: build_model.sh [repo]      exit 0 = everything built
 set -e
 REPO=${1:-/repo}
-cd /verif
+HERE=$(cd "$(dirname "$0")/.." && pwd)
+cd "$HERE"
 /venv/bin/python tools/py2v.py "$REPO" || true     # a failed translation leaves a non-compiling Gen file (fail closed)
 tools/mkproject.sh
 cd coq
